@@ -1,17 +1,297 @@
 import OpdaGen.Table
 /-!
-Probe: `Float` model of `NoisyQuadraticDistribution.cdf/pdf` and the private partial-moment stack,
-mirroring parametric.py line by line (scalar semantics of the vectorised code).
+Model of `opda.parametric.NoisyQuadraticDistribution.cdf / pdf / ppf` and of the private
+partial-moment stack behind them (`_partial_normal_moment`, `_base_partial_normal_moments`,
+`_partial_fractional_normal_moment`, `_get_approximation_coefficients`, `_chebyshev_coefficients`),
+mirroring parametric.py operation by operation (scalar semantics of the vectorised code).
+
+**One polymorphic definition** (`namespace Opda.Noisy`): the algorithm is written once over any
+carrier `α` with `+ − × ÷ −x <` (ordinary Lean classes, so that at an ordered field the proofs can use
+`ring`/`linarith` directly) and a record `Fns α` holding everything that is *not* arithmetic: numerals,
+`pow`, `cos`, `sqrt`, the three normal helpers of `opda.utils`, numpy's `==`, `isinf`, `±inf`, and the
+shipped approximation table.  The driver instantiates it at `Float` (`namespace Opda.NoisyF`: `plain`,
+and `jitter seed ulps`, the same functions with every transcendental result nudged by a few ulps to
+measure conditioning); `OpdaProofs/Noisy*.lean` reasons about the *same terms* at ordered fields and at
+`ℝ`.  Constants of the algorithm (1e-6, 10, 5e-2, the Chebyshev ladder 1e-2/3e-3/6e-4/3e-4 with degrees
+(5,5),(4,4),(3,3),(2,3),(2,2), 6σ, 30 steps, `(3 lo + hi)/4`) are pinned here by hand; only the table is
+regenerated from the repository.
 -/
+namespace Opda.Noisy
+
+/-- one entry of `_APPROXIMATIONS[k]` (without `max_error`, which the algorithm never reads) -/
+structure Entry (α : Type) where
+  minScale : α
+  knots : List α
+  coeffs : List (List α)
+
+/-- everything the algorithm uses besides field arithmetic and `<` -/
+structure Fns (α : Type) where
+  /-- numerals -/
+  n : Nat → α
+  pow : α → α → α
+  cos : α → α
+  sqrt : α → α
+  /-- `opda.utils.normal_cdf` -/
+  normalCdf : α → α
+  /-- `opda.utils.normal_pdf` -/
+  normalPdf : α → α
+  /-- `opda.utils.normal_ppf` -/
+  normalPpf : α → α
+  /-- `np.isinf` -/
+  isInf : α → Bool
+  /-- numpy's `==` -/
+  eq : α → α → Bool
+  pi : α
+  negInf : α
+  posInf : α
+  /-- `(2·exponent, entries in file order)` -/
+  table : List (Nat × List (Entry α))
+
+structure Params (α : Type) where
+  a : α
+  b : α
+  c : Nat
+  o : α
+  convex : Bool
+
+inductive Regime | noiseless | nothing | normal
+  deriving BEq, DecidableEq, Repr
+
+section
+variable {α : Type} [Add α] [Sub α] [Mul α] [Div α] [Neg α] [LT α] [DecidableLT α]
+
+/-- the decimal constant `p/q` (for `p`, `q` exactly representable the quotient is the correctly
+rounded double, i.e. the literal the Python source writes) -/
+def Fns.lit (F : Fns α) (p q : Nat) : α := F.n p / F.n q
+
+/-- `np.clip(x, lo, hi)` for `lo ≤ hi` -/
+def clip (x lo hi : α) : α := if x < lo then lo else if hi < x then hi else x
+
+/-- left-to-right sum starting from zero (numpy's `sum` over a short axis) -/
+def sumL (F : Fns α) (l : List α) : α := l.foldl (· + ·) (F.n 0)
+
+/-! ### `_chebyshev_coefficients` -/
+
+/-- Chebyshev nodes of the first kind on `[lo, hi]` (end points excluded) -/
+def chebNodes (F : Fns α) (lo hi : α) (n : Nat) : List α :=
+  (List.range (n+1)).map fun i =>
+    lo + (hi - lo) * F.lit 1 2 * (F.n 1 - F.cos (F.pi * F.n (2*i+1) / F.n (2*(n+1))))
+
+/-- `∏_{m ≠ j} (x_j − x_m)` in index order (the diagonal is set to one in the code) -/
+def prodOthers (F : Fns α) (xs : List α) (j : Nat) (xj : α) : α :=
+  xs.zipIdx.foldl (fun acc p => if p.2 = j then acc else acc * (xj - p.1)) (F.n 1)
+
+def sign (F : Fns α) (t : Nat) : α := if t % 2 = 0 then F.n 1 else -(F.n 1)
+
+/-- state of the Newton-identity loop: `es` latest first, `ps` earliest first, `cs` latest first -/
+structure ChebState (α : Type) where
+  es : List (List α)
+  ps : List (List α)
+  cs : List α
+
+def chebStep (F : Fns α) (xs ws : List α) (st : ChebState α) (i0 : Nat) : ChebState α :=
+  let i := i0 + 1
+  let pw := xs.map fun x => F.pow x (F.n i)
+  let tot := sumL F pw
+  let p := pw.map fun v => tot - v
+  let ps' := st.ps ++ [p]
+  -- e = Σ_t (−1)^t · es[i−1−t] · ps[t] / i   (elementwise over the nodes, summed over t in order)
+  let acc := (st.es.zip ps').zipIdx.foldl
+    (fun acc q => (acc.zip (q.1.1.zip q.1.2)).map fun r => r.1 + sign F q.2 * r.2.1 * r.2.2)
+    (xs.map fun _ => F.n 0)
+  let e := acc.map fun v => v / F.n i
+  let s := sumL F ((ws.zip e).map fun r => r.1 * r.2)
+  { es := e :: st.es, ps := ps', cs := (sign F i * s) :: st.cs }
+
+/-- `_chebyshev_coefficients(lo, hi, k, n)`: coefficients of the degree-`n` interpolant of `x^k` at the
+Chebyshev nodes, via Lagrange weights, Vieta and Newton's identities; constant term first -/
+def chebCoeffs (F : Fns α) (lo hi k : α) (n : Nat) : List α :=
+  let xs := chebNodes F lo hi n
+  let ws := xs.zipIdx.map fun p => F.pow p.1 k / prodOthers F xs p.2 p.1
+  let st0 : ChebState α := { es := [xs.map fun _ => F.n 1], ps := [], cs := [sumL F ws] }
+  ((List.range n).foldl (chebStep F xs ws) st0).cs
+
+/-! ### `_get_approximation_coefficients` -/
+
+/-- the Chebyshev degree ladder -/
+def chebDegrees (F : Fns α) (scale : α) : Nat × Nat :=
+  if ¬ (scale < F.lit 1 100) then (5, 5)
+  else if ¬ (scale < F.lit 3 1000) then (4, 4)
+  else if ¬ (scale < F.lit 6 10000) then (3, 3)
+  else if ¬ (scale < F.lit 3 10000) then (2, 3)
+  else (2, 2)
+
+/-- first table entry of exponent `m2/2` with `min_scale ≤ scale` -/
+def tableLookup (F : Fns α) (scale : α) (m2 : Int) : Option (Entry α) :=
+  if m2 < 0 then none else
+  match F.table.find? (fun p => p.1 == m2.toNat) with
+  | none => none
+  | some (_, entries) => entries.find? (fun e => ¬ (scale < e.minScale))
+
+/-- knots and per-piece coefficients of the piecewise polynomial standing in for `x^(m2/2)` -/
+def approxCoeffs (F : Fns α) (loc scale : α) (m2 : Int) : List α × List (List α) :=
+  match tableLookup F scale m2 with
+  | some e => (e.knots, e.coeffs)
+  | none =>
+    let k := (if m2 < 0 then -(F.n m2.natAbs) else F.n m2.natAbs) / F.n 2
+    let lo := clip (loc - F.n 6 * scale) (F.n 0) (F.n 1 - scale)
+    let hi := clip (loc + F.n 6 * scale) scale (F.n 1)
+    let md := (F.n 3 * lo + hi) / F.n 4
+    let nn := chebDegrees F scale
+    ([lo, md, hi], [chebCoeffs F lo md k nn.1, chebCoeffs F md hi k nn.2])
+
+/-! ### `_partial_fractional_normal_moment` -/
+
+/-- the inner loop over `cs[1:]` of one piece `[a, b]`: `mCurr` runs through the integer partial moments
+of the piece by the recursion `M_{i+1} = loc·M_i + i·var·M_{i−1} + a^i·t0 + b^i·t1` -/
+def pieceLoop (F : Fns α) (loc var a b : α) : List α → Nat → α → α → α → α → α → α
+  | [], _, _, _, _, _, fm => fm
+  | c :: rest, i, mPrev, mCurr, t0, t1, fm =>
+    let nxt := loc * mCurr + F.n i * var * mPrev + t0 + t1
+    pieceLoop F loc var a b rest (i+1) mCurr nxt (t0 * a) (t1 * b) (fm + c * nxt)
+
+/-- contribution of one piece, added to the running sum `fm` -/
+def pieceSum (F : Fns α) (loc scale : α) (fm : α) (pc : (α × α) × List α) : α :=
+  let a := pc.1.1
+  let b := pc.1.2
+  let t0 := scale * F.normalPdf ((a - loc) / scale)
+  let t1 := -scale * F.normalPdf ((b - loc) / scale)
+  let m0 := F.normalCdf ((b - loc) / scale) - F.normalCdf ((a - loc) / scale)
+  match pc.2 with
+  | [] => fm
+  | c0 :: rest => pieceLoop F loc (scale * scale) a b rest 0 (F.n 0) m0 t0 t1 (fm + c0 * m0)
+
+def partialFractional (F : Fns α) (loc scale : α) (m2 : Int) : α :=
+  let kc := approxCoeffs F loc scale m2
+  ((kc.1.zip kc.1.tail).zip kc.2).foldl (pieceSum F loc scale) (F.n 0)
+
+/-! ### `_partial_normal_moment` / `_base_partial_normal_moments` -/
+
+/-- the step-up loop `for j in range(k − 1)` from the base moments of order 0 and 1 -/
+def stepUp (F : Fns α) (loc var term : α) : Nat → Nat → α → α → α
+  | 0, _, _, curr => curr
+  | r+1, j, prev, curr => stepUp F loc var term r (j+1) curr (loc * curr + F.n (1+j) * var * prev + term)
+
+/-- integer order `k`: `E₀¹[X^k]` for `X ~ N(loc, scale²)` by the upward recursion -/
+def partialMomentInt (F : Fns α) (loc scale : α) (k : Nat) : α :=
+  let m0 := F.normalCdf ((F.n 1 - loc) / scale) - F.normalCdf (-loc / scale)
+  match k with
+  | 0 => m0
+  | k'+1 =>
+    let m1 := loc * m0 + scale * (F.normalPdf (-loc / scale) - F.normalPdf ((F.n 1 - loc) / scale))
+    stepUp F loc (scale * scale) (-scale * F.normalPdf ((F.n 1 - loc) / scale)) k' 0 m0 m1
+
+/-- half-integer order `m2/2` (`m2` odd, `≥ −1`) -/
+def partialMomentHalf (F : Fns α) (loc scale : α) (m2 : Int) : α :=
+  if m2 = -1 ∧ ¬ (scale < F.lit 5 100) then
+    -- one step down from the orders 1/2 and 3/2: (M_{3/2} − loc·M_{1/2} − term) / (½·var)
+    let term := -scale * F.normalPdf ((F.n 1 - loc) / scale)
+    (partialFractional F loc scale 3 - loc * partialFractional F loc scale 1 - term)
+      / (F.lit 1 2 * (scale * scale))
+  else partialFractional F loc scale m2
+
+/-- `_partial_normal_moment(loc, scale, k)` with `m2 = 2k` -/
+def partialMoment (F : Fns α) (loc scale : α) (m2 : Int) : α :=
+  if F.isInf loc then F.n 0
+  else if m2 % 2 = 0 then partialMomentInt F loc scale (m2 / 2).toNat
+  else partialMomentHalf F loc scale m2
+
+/-! ### the public methods -/
+
+def meanOf (F : Fns α) (d : Params α) : α :=
+  if d.convex then d.a + (d.b - d.a) * F.n d.c / (F.n d.c + F.n 2)
+  else d.a + (d.b - d.a) * F.n 2 / (F.n d.c + F.n 2)
+
+def varOf (F : Fns α) (d : Params α) : α :=
+  d.o * d.o + (d.b - d.a) * (d.b - d.a) * F.n 4 * F.n d.c
+    / ((F.n d.c + F.n 2) * (F.n d.c + F.n 2) * (F.n d.c + F.n 4))
+
+/-- `_approximate_with` -/
+def regime (F : Fns α) (d : Params α) : Regime :=
+  if d.o < F.lit 1 1000000 * (d.b - d.a) then .noiseless
+  else if d.o < F.n 10 * (d.b - d.a) then .nothing else .normal
+
+/-- `a == b and o == 0` -/
+def pointMass (F : Fns α) (d : Params α) : Bool := F.eq d.a d.b && F.eq d.o (F.n 0)
+
+def locOf (d : Params α) (y : α) : α :=
+  if d.convex then (y - d.a) / (d.b - d.a) else (d.b - y) / (d.b - d.a)
+
+/-- the series branch of `cdf` before the final clip -/
+def cdfRaw (F : Fns α) (d : Params α) (y : α) : α :=
+  let point := if d.convex then (y - d.b) / d.o else (y - d.a) / d.o
+  let pm := partialMoment F (locOf d y) (d.o / (d.b - d.a)) (d.c : Int)
+  if d.convex then F.normalCdf point + pm else F.normalCdf point - pm
+
+def cdf (F : Fns α) (d : Params α) (y : α) : α :=
+  if pointMass F d then (if y < d.a then F.n 0 else F.n 1)
+  else match regime F d with
+  | .noiseless =>
+    let y' := clip y d.a d.b
+    if d.convex then F.pow ((y' - d.a) / (d.b - d.a)) (F.n d.c / F.n 2)
+    else F.n 1 - F.pow ((d.b - y') / (d.b - d.a)) (F.n d.c / F.n 2)
+  | .normal => F.normalCdf ((y - meanOf F d) / F.sqrt (varOf F d))
+  | .nothing => clip (cdfRaw F d y) (F.n 0) (F.n 1)
+
+/-- the series branch of `pdf` before the final clip -/
+def pdfRaw (F : Fns α) (d : Params α) (y : α) : α :=
+  F.n d.c / (F.n 2 * (d.b - d.a)) * partialMoment F (locOf d y) (d.o / (d.b - d.a)) ((d.c : Int) - 2)
+
+def pdf (F : Fns α) (d : Params α) (y : α) : α :=
+  if pointMass F d then (if F.eq y d.a then F.posInf else F.n 0)
+  else match regime F d with
+  | .noiseless =>
+    if y < d.a ∨ d.b < y then F.n 0
+    else if d.convex then
+      F.n d.c / (F.n 2 * (d.b - d.a)) * F.pow ((y - d.a) / (d.b - d.a)) (F.n d.c / F.n 2 - F.n 1)
+    else
+      F.n d.c / (F.n 2 * (d.b - d.a)) * F.pow ((d.b - y) / (d.b - d.a)) (F.n d.c / F.n 2 - F.n 1)
+  | .normal => F.normalPdf ((y - meanOf F d) / F.sqrt (varOf F d)) / F.sqrt (varOf F d)
+  | .nothing =>
+    let p := pdfRaw F d y
+    if p < F.n 0 then F.n 0 else p
+
+/-- `k` bisection steps on the bracket `(lo, hi)`: `if f(mid) < q then lo := mid else hi := mid` -/
+def bisect (f : α → α) (mid : α → α → α) (q : α) : Nat → α × α → α × α
+  | 0, br => br
+  | k+1, (lo, hi) =>
+    let m := mid lo hi
+    if f m < q then bisect f mid q k (m, hi) else bisect f mid q k (lo, m)
+
+def midpoint (F : Fns α) (lo hi : α) : α := (lo + hi) / F.n 2
+
+/-- the bisection branch of `ppf`: 30 steps on `[a − 6o, b + 6o]`, then the midpoint -/
+def ppfBisect (F : Fns α) (d : Params α) (q : α) : α :=
+  let br := bisect (cdf F d) (midpoint F) q 30 (d.a - F.n 6 * d.o, d.b + F.n 6 * d.o)
+  midpoint F br.1 br.2
+
+def ppf (F : Fns α) (d : Params α) (q0 : α) : α :=
+  let q := clip q0 (F.n 0) (F.n 1)
+  if pointMass F d then d.a
+  else match regime F d with
+  | .noiseless =>
+    if d.convex then d.a + (d.b - d.a) * F.pow q (F.n 2 / F.n d.c)
+    else d.b - (d.b - d.a) * F.pow (F.n 1 - q) (F.n 2 / F.n d.c)
+  | .normal => meanOf F d + F.sqrt (varOf F d) * F.normalPpf q
+  | .nothing =>
+    let y := ppfBisect F d q
+    let y1 := if F.eq q (F.n 0) then F.negInf else if F.eq q (F.n 1) then F.posInf else y
+    if F.eq d.o (F.n 0) then clip y1 d.a d.b else y1
+
+end
+end Opda.Noisy
+
+/-! ## the `Float` instances -/
 namespace Opda.NoisyF
+open Opda.Noisy
 
 /-- elementary functions, possibly jittered by a few ulps (to estimate conditioning) -/
-structure Fns where
+structure Elem where
   exp : Float → Float
   pow : Float → Float → Float
   cos : Float → Float
   sqrt : Float → Float
-  post : Float → Float   -- applied to erf's result
+  post : Float → Float   -- applied to erf's / erfinv's result
 
 def nudge (seed : Nat) (ulps : Nat) (x : Float) : Float :=
   if ulps == 0 || x.isNaN || x.isInf || x == 0.0 then x else
@@ -19,28 +299,67 @@ def nudge (seed : Nat) (ulps : Nat) (x : Float) : Float :=
   -- cheap hash of (bits, seed)
   let h := (b.toNat * 6364136223846793005 + seed * 1442695040888963407 + 12345) % 18446744073709551616
   let k := (h / 65536) % (2 * ulps + 1)
-  Float.ofBits (UInt64.ofNat (b.toNat + k - ulps))
-
-def plain : Fns := { exp := Float.exp, pow := Float.pow, cos := Float.cos, sqrt := Float.sqrt, post := id }
-def jitter (seed ulps : Nat) : Fns :=
-  { exp := fun x => nudge seed ulps (Float.exp x), pow := fun x y => nudge seed ulps (Float.pow x y),
-    cos := fun x => nudge seed ulps (Float.cos x), sqrt := Float.sqrt, post := nudge seed ulps }
+  -- move the magnitude by k − ulps units in the last place, keeping the sign and staying finite
+  let sgn := b.toNat / 9223372036854775808
+  let mag := b.toNat % 9223372036854775808 + k - ulps
+  if mag ≥ 9218868437227405312 then x else Float.ofBits (UInt64.ofNat (sgn * 9223372036854775808 + mag))
 
 def pi : Float := 3.141592653589793
 
-/-- erf: positive-term series for |x| < 3, continued fraction for erfc beyond -/
-def erf (F : Fns) (x : Float) : Float := F.post <|
+/-- `(erf x₀ rounded, its rounding residual, 2/√π·e^{−x₀²})` at `x₀ = k/8`, `k = 0..24` (mathematical constants,
+computed to 50 digits; doubles as bit patterns) -/
+def erfTable : Array (Float × Float × Float) := #[
+  (Float.ofBits 0x0000000000000000, Float.ofBits 0x0000000000000000, Float.ofBits 0x3FF20DD750429B6D),
+  (Float.ofBits 0x3FC1F5E1A35C3B89, Float.ofBits 0x3C6D0B6D6493E0F4, Float.ofBits 0x3FF1C62FA1E869B6),
+  (Float.ofBits 0x3FD1AF54E232D609, Float.ofBits 0xBC7BEE921FA4172B, Float.ofBits 0x3FF0F5D1602F7E41),
+  (Float.ofBits 0x3FD9DD0D2B721F39, Float.ofBits 0xBC71671C021D14C4, Float.ofBits 0x3FEF5F0CDAF15313),
+  (Float.ofBits 0x3FE0A7EF5C18EDD2, Float.ofBits 0x3C75E809F1A31A28, Float.ofBits 0x3FEC1EFCA49A5011),
+  (Float.ofBits 0x3FE3F196DCD0F135, Float.ofBits 0xBC7F25F4F6FDF70B, Float.ofBits 0x3FE86E9694134B9E),
+  (Float.ofBits 0x3FE6C1C9759D0E5F, Float.ofBits 0x3C8B1432F2CBC455, Float.ofBits 0x3FE492E42D78D2C5),
+  (Float.ofBits 0x3FE91724951B8FC6, Float.ofBits 0xBC827912DD352F8B, Float.ofBits 0x3FE0CAB61F084B93),
+  (Float.ofBits 0x3FEAF767A741088B, Float.ofBits 0xBC7C97F778122797, Float.ofBits 0x3FDA911F096FBC26),
+  (Float.ofBits 0x3FEC6DAD2829EC62, Float.ofBits 0xBC6AB76D4CBA3D05, Float.ofBits 0x3FD45E99BCBB7915),
+  (Float.ofBits 0x3FED8865D98ABE01, Float.ofBits 0xBC8FCEC4AFB974D9, Float.ofBits 0x3FCE4652FADCB6B2),
+  (Float.ofBits 0x3FEE5768C3B4A3FC, Float.ofBits 0x3C68B62674F89890, Float.ofBits 0x3FC5CE595C455B0A),
+  (Float.ofBits 0x3FEEEA5557137AE0, Float.ofBits 0xBC8385E445F2C96D, Float.ofBits 0x3FBE723726B824A9),
+  (Float.ofBits 0x3FEF4F693B67BD77, Float.ofBits 0xBC73A1EE1406C356, Float.ofBits 0x3FB499D478BCA735),
+  (Float.ofBits 0x3FEF92D077F8D56D, Float.ofBits 0x3C78B55EF493FCE7, Float.ofBits 0x3FAB055303221015),
+  (Float.ofBits 0x3FEFBE61EEF4CF6A, Float.ofBits 0x3C815DED88667618, Float.ofBits 0x3FA12CEB37FF9BC3),
+  (Float.ofBits 0x3FEFD9AE142795E3, Float.ofBits 0x3C7972801904B9A3, Float.ofBits 0x3F9529B9E8CF9A1E),
+  (Float.ofBits 0x3FEFEA4218D6594A, Float.ofBits 0xBC5E3333D8F7D98C, Float.ofBits 0x3F894624E78E0FAF),
+  (Float.ofBits 0x3FEFF404760319B4, Float.ofBits 0x3C7F142071432025, Float.ofBits 0x3F7D4143A9DFE965),
+  (Float.ofBits 0x3FEFF9960F3EB327, Float.ofBits 0xBC708B1CA6E97F80, Float.ofBits 0x3F706918B6355624),
+  (Float.ofBits 0x3FEFFCAA8F4C9BEA, Float.ofBits 0x3C8B0CEE160116F9, Float.ofBits 0x3F61D83170FBF6FB),
+  (Float.ofBits 0x3FEFFE514BBDC197, Float.ofBits 0xBC5CD963345B5C6D, Float.ofBits 0x3F52CE898809244E),
+  (Float.ofBits 0x3FEFFF2CFB0453D9, Float.ofBits 0x3C89A913686042A3, Float.ofBits 0x3F43360CCD23DB3A),
+  (Float.ofBits 0x3FEFFF9BA420E834, Float.ofBits 0x3C71379EC5AA630E, Float.ofBits 0x3F330538FBB77ECD),
+  (Float.ofBits 0x3FEFFFD1AC4135F9, Float.ofBits 0x3C8EEAFA1ECD6CEF, Float.ofBits 0x3F22408E9BA3327F)
+]
+
+/-- erf.  `|x| < 3`: `erf x = erf x₀ + (2/√π) e^{−x₀²} ∫₀^h e^{−2x₀u−u²} du` with `x₀` the nearest multiple of `1/8`,
+`|h| ≤ 1/16`; the integrand's Taylor coefficients obey `a_{n+1} = (−2x₀ a_n − 2 a_{n−1})/(n+1)`, so the integral is
+`Σ a_n h^{n+1}/(n+1)` (18 terms).  Measured accuracy ≤ 2.4 ulp (scipy's: ≤ 2.6 ulp).  `|x| ≥ 3`: continued fraction
+for erfc.  `E.post` is applied to the result (identity, or the ±ulps jitter). -/
+def erfWith (E : Elem) (x : Float) : Float := E.post <|
   let ax := x.abs
   let v :=
     if ax < 3.0 then Id.run do
-      -- erf(x) = 2/√π e^{-x²} Σ 2^n x^{2n+1} / (1·3·…·(2n+1))
-      let mut term := ax
-      let mut sum := ax
-      for n in [1:200] do
-        term := term * 2.0 * ax * ax / (2.0 * n.toFloat + 1.0)
-        sum := sum + term
-        if term < 1e-18 * sum then break
-      return 2.0 / Float.sqrt pi * F.exp (-(ax*ax)) * sum
+      let k := (ax * 8.0 + 0.5).floor.toUInt64.toNat
+      let x0 := k.toFloat / 8.0
+      let h := ax - x0
+      let (hi, lo, g) := erfTable[k]!
+      let tx := -2.0 * x0
+      let mut am1 := 0.0
+      let mut a := 1.0
+      let mut hp := h
+      let mut I := h
+      for n in [0:18] do
+        let an1 := (tx * a - 2.0 * am1) / (n.toFloat + 1.0)
+        am1 := a
+        a := an1
+        hp := hp * h
+        I := I + a * hp / (n.toFloat + 2.0)
+      return hi + (lo + g * I)
     else Id.run do
       -- erfc(x) = e^{-x²}/(x√π) · 1/(1 + 1/(2x²)/(1 + 2/(2x²)/(1 + …)))  (evaluate bottom-up)
       let z := 2.0 * ax * ax
@@ -48,211 +367,94 @@ def erf (F : Fns) (x : Float) : Float := F.post <|
       for j in [0:40] do
         let k := (40 - j).toFloat
         f := 1.0 + (k / z) / f
-      let erfc := F.exp (-(ax*ax)) / (ax * Float.sqrt pi) / f
+      let erfc := E.exp (-(ax*ax)) / (ax * Float.sqrt pi) / f
       return 1.0 - erfc
   if x < 0.0 then -v else v
 
-def normalPdf (F : Fns) (x : Float) : Float := 0.3989422804014327 * F.exp (-0.5 * (x*x))
-def normalCdf (F : Fns) (x : Float) : Float := 0.5 * (1.0 + erf F (1.0 / Float.sqrt 2.0 * x))
+/-- erfc for `t ≥ 0` with full relative accuracy in the tail (continued fraction from 3 on) -/
+def erfcPos (t : Float) : Float :=
+  if t < 3.0 then 1.0 - erfWith { exp := Float.exp, pow := Float.pow, cos := Float.cos, sqrt := Float.sqrt, post := id } t
+  else Id.run do
+    let z := 2.0 * t * t
+    let mut f := 1.0
+    for j in [0:40] do
+      let k := (40 - j).toFloat
+      f := 1.0 + (k / z) / f
+    return Float.exp (-(t*t)) / (t * Float.sqrt pi) / f
 
-def clip (x lo hi : Float) : Float := if x < lo then lo else if hi < x then hi else x
+/-- `scipy.special.erfinv` stand-in: bisection on `erf` (|x| < ½) or on `erfc` (the complement `1 − |x|`
+is exact there), 100 steps on `[0, 27]` -/
+def erfinv (x : Float) : Float :=
+  if x.isNaN then x else
+  let ax := x.abs
+  if ax > 1.0 then 0.0 / 0.0 else
+  let v : Float :=
+    if ax == 1.0 then 1.0 / 0.0
+    else if ax == 0.0 then 0.0
+    else Id.run do
+      let useC := ax >= 0.5
+      let p := 1.0 - ax
+      let mut lo := 0.0
+      let mut hi := 27.0
+      for _ in [0:100] do
+        let m := (lo + hi) / 2.0
+        let below := if useC then erfcPos m > p
+                     else erfWith { exp := Float.exp, pow := Float.pow, cos := Float.cos, sqrt := Float.sqrt, post := id } m < ax
+        if below then lo := m else hi := m
+      return (lo + hi) / 2.0
+  if x < 0.0 then -v else v
 
-/-- `_chebyshev_coefficients(lo, hi, k, n)`; returns constant term first -/
-def chebCoeffs (F : Fns) (lo hi k : Float) (n : Nat) : List Float := Id.run do
-  let xs : Array Float := (Array.range (n+1)).map fun i =>
-    lo + (hi - lo) * 0.5 * (1.0 - F.cos (pi * (2.0 * i.toFloat + 1.0) / (2.0 * (n.toFloat + 1.0))))
-  -- Lagrange weights
-  let ws : Array Float := (Array.range (n+1)).map fun i => Id.run do
-    let mut prod := 1.0
-    for j in [0:n+1] do
-      if j ≠ i then prod := prod * (xs[i]! - xs[j]!)
-    return F.pow xs[i]! k / prod
-  -- es[i][m] : i-th elementary symmetric polynomial of the nodes other than m
-  let mut es : Array (Array Float) := #[Array.replicate (n+1) 1.0]
-  let mut ps : Array (Array Float) := #[]
-  let mut cs : Array Float := #[ws.foldl (· + ·) 0.0]
-  for i in [1:n+1] do
-    let tot := xs.foldl (fun acc x => acc + F.pow x i.toFloat) 0.0
-    let p := xs.map fun x => tot - F.pow x i.toFloat
-    ps := ps.push p
-    let e := (Array.range (n+1)).map fun m => Id.run do
-      let mut acc := 0.0
-      for t in [0:i] do
-        let sign := if t % 2 == 0 then 1.0 else -1.0
-        acc := acc + sign * (es[i-1-t]!)[m]! * (ps[t]!)[m]!
-      return acc / i.toFloat
-    es := es.push e
-    let sgn := if i % 2 == 0 then 1.0 else -1.0
-    let s := (Array.range (n+1)).foldl (fun acc m => acc + ws[m]! * e[m]!) 0.0
-    cs := cs.push (sgn * s)
-  return cs.toList.reverse
+/-- the shipped table as the polymorphic model reads it -/
+def floatTable : List (Nat × List (Entry Float)) :=
+  Opda.Gen.table.map fun p =>
+    (p.1, p.2.map fun e => ({ minScale := e.minScale, knots := e.knots, coeffs := e.coeffs } : Entry Float))
 
-/-- `_get_approximation_coefficients(loc, scale, k)` with `m2 = 2k` -/
-def approxCoeffs (F : Fns) (loc scale : Float) (m2 : Int) : List Float × List (List Float) :=
-  let fromTable : Option (List Float × List (List Float)) :=
-    if m2 < 0 then none else
-    match Opda.Gen.table.find? (fun p => p.1 == m2.toNat) with
-    | none => none
-    | some (_, entries) =>
-      match entries.find? (fun e => ¬ (scale < e.minScale)) with
-      | none => none
-      | some e => some (e.knots, e.coeffs)
-  match fromTable with
-  | some r => r
-  | none =>
-    let k := (Float.ofInt m2) / 2.0
-    let lo := clip (loc - 6.0 * scale) 0.0 (1.0 - scale)
-    let hi := clip (loc + 6.0 * scale) scale 1.0
-    let md := (3.0 * lo + hi) / 4.0
-    let (nl, nr) :=
-      if scale >= 1e-2 then (5, 5) else if scale >= 3e-3 then (4, 4) else if scale >= 6e-4 then (3, 3)
-      else if scale >= 3e-4 then (2, 3) else (2, 2)
-    ([lo, md, hi], [chebCoeffs F lo md k nl, chebCoeffs F md hi k nr])
+abbrev Fns := Opda.Noisy.Fns Float
+abbrev Params := Opda.Noisy.Params Float
 
-/-- `_partial_fractional_normal_moment` -/
-def partialFractional (F : Fns) (loc scale : Float) (m2 : Int) : Float := Id.run do
-  let (knots, coefficients) := approxCoeffs F loc scale m2
-  let var := scale * scale
-  let mut fm := 0.0
-  let pieces := (knots.zip knots.tail).zip coefficients
-  for ((a, b), cs) in pieces do
-    let mut term0 := scale * normalPdf F ((a - loc) / scale)
-    let mut term1 := -scale * normalPdf F ((b - loc) / scale)
-    let mut mPrev := 0.0
-    let mut mCurr := normalCdf F ((b - loc) / scale) - normalCdf F ((a - loc) / scale)
-    match cs with
-    | [] => pure ()
-    | c0 :: rest =>
-      fm := fm + c0 * mCurr
-      let mut i := 0
-      for c in rest do
-        let nxt := loc * mCurr + i.toFloat * var * mPrev + term0 + term1
-        mPrev := mCurr
-        mCurr := nxt
-        fm := fm + c * mCurr
-        term0 := term0 * a
-        term1 := term1 * b
-        i := i + 1
-  return fm
+def mkFns (E : Elem) : Fns :=
+  { n := Float.ofNat
+    pow := E.pow
+    cos := E.cos
+    sqrt := E.sqrt
+    normalCdf := fun x => 0.5 * (1.0 + erfWith E (1.0 / Float.sqrt 2.0 * x))
+    normalPdf := fun x => 0.3989422804014327 * E.exp (-0.5 * (x*x))
+    normalPpf := fun q => Float.sqrt 2.0 * E.post (erfinv (2.0 * q - 1.0))
+    isInf := Float.isInf
+    eq := fun x y => x == y
+    pi := pi
+    negInf := -1.0 / 0.0
+    posInf := 1.0 / 0.0
+    table := floatTable }
 
-/-- `_partial_normal_moment(loc, scale, k)` with `m2 = 2k` (an integer ≥ −1) -/
-def partialMoment (F : Fns) (loc scale : Float) (m2 : Int) : Float := Id.run do
-  if loc.isInf then return 0.0
-  let var := scale * scale
-  let term := -scale * normalPdf F ((1.0 - loc) / scale)
-  if m2 % 2 == 0 then
-    -- integer k: base moments 0 and 1, step up
-    let k := (m2 / 2).toNat
-    let m0 := normalCdf F ((1.0 - loc) / scale) - normalCdf F (-loc / scale)
-    if k == 0 then return m0
-    let m1 := loc * m0 + scale * (normalPdf F (-loc / scale) - normalPdf F ((1.0 - loc) / scale))
-    if k == 1 then return m1
-    let mut mPrev := m0
-    let mut mCurr := m1
-    for j in [0:k-1] do
-      let nxt := loc * mCurr + (1.0 + j.toFloat) * var * mPrev + term
-      mPrev := mCurr
-      mCurr := nxt
-    return mCurr
-  else
-    if m2 == -1 && scale >= 5e-2 then
-      -- step down from 0.5 and 1.5:  i = 1.5 → i-1 = 0.5 ; one step to −0.5
-      let mHalf := partialFractional F loc scale 1
-      let mThreeHalves := partialFractional F loc scale 3
-      -- (moment_prev − loc*moment_curr − term) / ((i − j) * var) with i = 0.5, j = 0,
-      -- moment_prev = E[X^1.5], moment_curr = E[X^0.5]
-      return (mThreeHalves - loc * mHalf - term) / (0.5 * var)
-    else
-      return partialFractional F loc scale m2
+def plainElem : Elem := { exp := Float.exp, pow := Float.pow, cos := Float.cos, sqrt := Float.sqrt, post := id }
+def jitterElem (seed ulps : Nat) : Elem :=
+  { exp := fun x => nudge seed ulps (Float.exp x), pow := fun x y => nudge seed ulps (Float.pow x y),
+    cos := fun x => nudge seed ulps (Float.cos x), sqrt := Float.sqrt, post := nudge seed ulps }
 
-structure Params where
-  a : Float
-  b : Float
-  c : Nat
-  o : Float
-  convex : Bool
+def plain : Fns := mkFns plainElem
+def jitter (seed ulps : Nat) : Fns := mkFns (jitterElem seed ulps)
 
-def meanOf (d : Params) : Float :=
-  if d.convex then d.a + (d.b - d.a) * d.c.toFloat / (d.c.toFloat + 2.0)
-  else d.a + (d.b - d.a) * 2.0 / (d.c.toFloat + 2.0)
-def varOf (d : Params) : Float :=
-  d.o * d.o + (d.b - d.a) * (d.b - d.a) * 4.0 * d.c.toFloat / ((d.c.toFloat + 2.0) * (d.c.toFloat + 2.0) * (d.c.toFloat + 4.0))
+def regime (d : Params) : Regime := Opda.Noisy.regime plain d
+def cdf (F : Fns) (d : Params) (y : Float) : Float := Opda.Noisy.cdf F d y
+def pdf (F : Fns) (d : Params) (y : Float) : Float := Opda.Noisy.pdf F d y
+def partialMoment (F : Fns) (loc scale : Float) (m2 : Int) : Float := Opda.Noisy.partialMoment F loc scale m2
 
-inductive Regime | noiseless | nothing | normal deriving BEq
-def regime (d : Params) : Regime :=
-  if d.o < 1e-6 * (d.b - d.a) then .noiseless else if d.o < 1e+1 * (d.b - d.a) then .nothing else .normal
-
-def cdf (F : Fns) (d : Params) (y : Float) : Float :=
-  let c2 := d.c.toFloat / 2.0
-  if d.a == d.b && d.o == 0.0 then (if y < d.a then 0.0 else 1.0)
-  else match regime d with
-  | .noiseless =>
-    let y' := clip y d.a d.b
-    if d.convex then F.pow ((y' - d.a) / (d.b - d.a)) c2
-    else 1.0 - F.pow ((d.b - y') / (d.b - d.a)) c2
-  | .normal => normalCdf F ((y - meanOf d) / Float.sqrt (varOf d))
-  | .nothing =>
-    let point := if d.convex then (y - d.b) / d.o else (y - d.a) / d.o
-    let loc := if d.convex then (y - d.a) / (d.b - d.a) else (d.b - y) / (d.b - d.a)
-    let scale := d.o / (d.b - d.a)
-    let pm := partialMoment F loc scale (d.c : Int)
-    let q := if d.convex then normalCdf F point + pm else normalCdf F point - pm
-    clip q 0.0 1.0
-
-def pdf (F : Fns) (d : Params) (y : Float) : Float :=
-  let c := d.c.toFloat
-  if d.a == d.b && d.o == 0.0 then (if y == d.a then 1.0/0.0 else 0.0)
-  else match regime d with
-  | .noiseless =>
-    if y < d.a || d.b < y then 0.0
-    else if d.convex then (c / (2.0 * (d.b - d.a))) * F.pow ((y - d.a) / (d.b - d.a)) (c / 2.0 - 1.0)
-    else (c / (2.0 * (d.b - d.a))) * F.pow ((d.b - y) / (d.b - d.a)) (c / 2.0 - 1.0)
-  | .normal => normalPdf F ((y - meanOf d) / Float.sqrt (varOf d)) / Float.sqrt (varOf d)
-  | .nothing =>
-    let loc := if d.convex then (y - d.a) / (d.b - d.a) else (d.b - y) / (d.b - d.a)
-    let scale := d.o / (d.b - d.a)
-    let p := c / (2.0 * (d.b - d.a)) * partialMoment F loc scale ((d.c : Int) - 2)
-    if p < 0.0 then 0.0 else p
-
-end Opda.NoisyF
-
-namespace Opda.NoisyF
-
-/-- `utils.normal_ppf` is a black box (erfinv); the probe inverts `normalCdf` by bisection only for the
-`normal` regime comparison — the framework takes `erfinv` from the harness instead. -/
-def normalPpfApprox (F : Fns) (q : Float) : Float := Id.run do
-  if q <= 0.0 then return -1.0/0.0
-  if q >= 1.0 then return 1.0/0.0
-  let mut lo := -40.0
-  let mut hi := 40.0
-  for _ in [0:200] do
-    let m := (lo + hi) / 2.0
-    if normalCdf F m < q then lo := m else hi := m
-  return (lo + hi) / 2.0
-
-/-- `ppf`: returns (value, margin) where margin = min over the 30 steps of |cdf(mid) − q| -/
-def ppf (F : Fns) (d : Params) (q0 : Float) : Float × Float := Id.run do
+/-- `ppf`: returns (value, margin) where margin = min over the 30 steps of |cdf(mid) − q|
+(`1` outside the bisection branch) -/
+def ppf (F : Fns) (d : Params) (q0 : Float) : Float × Float :=
+  let v := Opda.Noisy.ppf F d q0
   let q := clip q0 0.0 1.0
-  if d.a == d.b && d.o == 0.0 then return (d.a, 1.0)
-  match regime d with
-  | .noiseless =>
-    let c2i := 2.0 / d.c.toFloat
-    return (if d.convex then d.a + (d.b - d.a) * F.pow q c2i else d.b - (d.b - d.a) * F.pow (1.0 - q) c2i, 1.0)
-  | .normal => return (meanOf d + F.sqrt (varOf d) * normalPpfApprox F q, 1.0)
-  | .nothing =>
+  if pointMass F d || !(Opda.Noisy.regime F d == .nothing) then (v, 1.0) else Id.run do
     let mut lo := d.a - 6.0 * d.o
     let mut hi := d.b + 6.0 * d.o
-    let mut y := (lo + hi) / 2.0
     let mut margin := 1.0
     for _ in [0:30] do
+      let y := (lo + hi) / 2.0
       let cy := cdf F d y
       margin := min margin (cy - q).abs
       if cy < q then lo := y else hi := y
-      y := (lo + hi) / 2.0
-    if q == 0.0 then return (-1.0/0.0, margin)
-    if q == 1.0 then return (1.0/0.0, margin)
-    if d.o == 0.0 then return (clip y d.a d.b, margin)
-    return (y, margin)
+    return (v, margin)
 
 /-- `average_tuning_curve(n, minimize)` with the default atol: returns (value, refinements, |err−atol|/atol at stop) -/
 def avgCurve (F : Fns) (d : Params) (n : Float) (minimize : Bool) : Float × Nat × Float := Id.run do
